@@ -92,24 +92,24 @@ theorem replaceRange_cons {c : Char} (hc : c.utf8Size = 1) (res : Str) (lo hi : 
 
 /-- one acronym -/
 theorem applyAcronym_shift (U : UnicodeOps) {c : Char} (hc : c.utf8Size = 1) (a : Str)
-    (hp : GoodPat c (Rename.toPascal a)) (name res : Str) :
+    (hp : GoodPat c (Rename.toPascal U a)) (name res : Str) :
     applyAcronym U (c :: name) (c :: res) a = (applyAcronym U name res a).bind fun r => .ok (c :: r) := by
   unfold applyAcronym
   simp only
   rw [matchIndices_shift hc hp]
-  generalize matchIndices name (Rename.toPascal a) = is
+  generalize matchIndices name (Rename.toPascal U a) = is
   induction is generalizing res with
   | nil => simp [List.foldlM]
   | cons i t ih =>
     simp only [List.map_cons, List.foldlM_cons]
-    have hget : (c :: name)[i + 1 + (Rename.toPascal a).length]? = name[i + (Rename.toPascal a).length]? := by
-      have : i + 1 + (Rename.toPascal a).length = (i + (Rename.toPascal a).length) + 1 := by omega
+    have hget : (c :: name)[i + 1 + (Rename.toPascal U a).length]? = name[i + (Rename.toPascal U a).length]? := by
+      have : i + 1 + (Rename.toPascal U a).length = (i + (Rename.toPascal U a).length) + 1 := by omega
       rw [this, List.getElem?_cons_succ]
     rw [hget]
     split
-    · have : i + 1 + (Rename.toPascal a).length = (i + (Rename.toPascal a).length) + 1 := by omega
+    · have : i + 1 + (Rename.toPascal U a).length = (i + (Rename.toPascal U a).length) + 1 := by omega
       rw [this, replaceRange_cons hc]
-      cases hr : replaceRange res i (i + (Rename.toPascal a).length) (U.upperStr (Rename.toPascal a)) with
+      cases hr : replaceRange res i (i + (Rename.toPascal U a).length) (U.upperStr (Rename.toPascal U a)) with
       | ok r => exact ih r
       | err e => rfl
       | panic s => rfl
@@ -117,10 +117,10 @@ theorem applyAcronym_shift (U : UnicodeOps) {c : Char} (hc : c.utf8Size = 1) (a 
 
 /-- the whole pass -/
 theorem convertAcronyms_shift (U : UnicodeOps) {c : Char} (hc : c.utf8Size = 1) (acronyms : List Str)
-    (hp : ∀ a ∈ acronyms, GoodPat c (Rename.toPascal a)) (name : Str) :
+    (hp : ∀ a ∈ acronyms, GoodPat c (Rename.toPascal U a)) (name : Str) :
     convertAcronyms U acronyms (c :: name) = (convertAcronyms U acronyms name).bind fun r => .ok (c :: r) := by
   unfold convertAcronyms
-  suffices h : ∀ (as : List Str), (∀ a ∈ as, GoodPat c (Rename.toPascal a)) → ∀ res : Str,
+  suffices h : ∀ (as : List Str), (∀ a ∈ as, GoodPat c (Rename.toPascal U a)) → ∀ res : Str,
       as.foldlM (applyAcronym U (c :: name)) (c :: res) =
         (as.foldlM (applyAcronym U name) res).bind fun r => .ok (c :: r) from h acronyms hp name
   intro as
@@ -135,10 +135,28 @@ theorem convertAcronyms_shift (U : UnicodeOps) {c : Char} (hc : c.utf8Size = 1) 
     | err e => rfl
     | panic s => rfl
 
+/-- whether a Pascal-cased pattern is non-empty, and its first character, do not depend on the all-capitals
+flag (the first character written is always `asciiUpper` of the first character that is not `_`) -/
+theorem goodPat_pascalGo (c : Char) (b b' : Bool) (a : Str) :
+    GoodPat c (Rename.pascalGo b true a) ↔ GoodPat c (Rename.pascalGo b' true a) := by
+  induction a with
+  | nil => simp [Rename.pascalGo]
+  | cons x t ih =>
+    simp only [Rename.pascalGo]
+    by_cases hx : x = '_'
+    · simp only [hx, if_true]; exact ih
+    · simp only [hx, if_false, if_true, GoodPat]
+
+/-- … hence not on the Unicode tables either -/
+theorem goodPat_toPascal (c : Char) (U U' : UnicodeOps) (a : Str) :
+    GoodPat c (Rename.toPascal U a) ↔ GoodPat c (Rename.toPascal U' a) :=
+  goodPat_pascalGo c _ _ a
+
 /-- the acronyms' patterns are non-empty and begin with none of `*`, `[`, `]` (true of every
-acronym made of letters and digits) -/
+acronym made of letters and digits).  The pattern is `to_pascal_case` of the acronym; whether it is empty and
+what it begins with is the same for every Unicode table (`goodPat_toPascal`), so the ASCII one is named. -/
 def SaneAcronyms (cfg : Cfg) : Prop :=
-  ∀ a ∈ cfg.uppercaseAcronyms, ∀ c ∈ ['*', '[', ']'], GoodPat c (Rename.toPascal a)
+  ∀ a ∈ cfg.uppercaseAcronyms, ∀ c ∈ ['*', '[', ']'], GoodPat c (Rename.toPascal UnicodeOps.ascii a)
 
 /-- **the acronym pass is transparent for pointer / slice punctuation** for every sane acronym list -/
 theorem acrTransparent_of_sane (U : UnicodeOps) (cfg : Cfg) (h : SaneAcronyms cfg) : AcrTransparent U cfg := by
@@ -146,7 +164,7 @@ theorem acrTransparent_of_sane (U : UnicodeOps) (cfg : Cfg) (h : SaneAcronyms cf
   have hc : c.utf8Size = 1 := by
     simp only [List.mem_cons, List.not_mem_nil, or_false] at hcm
     rcases hcm with rfl | rfl | rfl <;> decide
-  exact convertAcronyms_shift U hc _ (fun a ha => h a ha c hcm) s
+  exact convertAcronyms_shift U hc _ (fun a ha => (goodPat_toPascal c _ U a).1 (h a ha c hcm)) s
 
 example : SaneAcronyms { uppercaseAcronyms := [s%"id", s%"url", s%"API"] } := by
   intro a ha c hc
